@@ -34,6 +34,13 @@ TEMPLATES = [
     "F takes X\nsay X\n\nsay F taking 1\n",
     "Deep takes N\nif N is 0\ngive back 0\n\ngive back 1 plus Deep taking N minus 1\n\nsay Deep taking 50\n",
     "the function takes my arg and Your Other Arg\ngive back my arg with Your Other Arg\n\nsay the function taking 1, 2\nsay THE FUNCTION taking \"a\", \"b\"\n",
+    # empty bodies (a function, a branch, a loop that ends at once): the scope protocol still runs, the pronoun is cleared
+    "Idle takes X\n\n\nput 5 into Y\nIdle taking 1\nshout it\n",
+    "Idle takes X\n\n\nput 5 into Y\nsay Idle taking 1\nput 9 into it\nsay Y\n",
+    "Idle takes X, Y\n\n\nput 5 into Z\nput Idle taking Z, 2 into W\nsay W\nsay it\n",
+    "Idle takes X\n\n\nput 5 into X\nIdle taking 7\nsay X\nbuild it up\n",
+    "put 5 into Y\nif Y\n\nshout it\n", "put 5 into Y\nif not Y\n\nelse\n\nshout it\n", "put 0 into Y\nwhile Y\n\nshout it\n",
+    "put 0 into Y\nuntil Y is 0\n\nshout it\nput 3 into Z\nshout it\n",
 ]
 
 
@@ -82,7 +89,7 @@ def run(chk):
     record_exec(chk, recs2)
     chk.rule = ("hand-written scope/call/pronoun templates (recursion, return from nested loops/ifs, call by value for scalars and "
                 "arrays, block locals, argument order with printing callees, pronoun after block/call end, arity and kind errors, "
-                "name shadowing between parameters/locals and outer functions; parameters named like the caller's variables with the "
+                "name shadowing between parameters/locals and outer functions; empty function / branch / loop bodies followed by a pronoun; parameters named like the caller's variables with the "
                 "arguments in every order and form: variable, subscript, nested call, negation, pronoun) plus generated programs with functions; compared: "
                 "stdout bytes + outcome in debug and release")
     conclude(chk, "C05", proved)
